@@ -71,8 +71,11 @@ class C06(Prop):
         out = []
         rng = ctx.rng("c06")
         for i in range(ctx.pick(40, 600)):
-            out.append(("view", {"k": "view", **commit_history(rng, rng.randint(20, ctx.pick(90, 250)),
-                                                                heavy_delete=(i % 4 == 0), lazy=(i % 10 != 9))}))
+            h = commit_history(rng, rng.randint(20, ctx.pick(90, 250)), heavy_delete=(i % 4 == 0), lazy=(i % 10 != 9))
+            if i % 5 == 3:
+                # another store of the same process (another database file) is written to before many of the operations
+                h["neighbour"] = sorted(rng.sample(range(len(h["ops"])), min(len(h["ops"]), rng.randint(5, 40))))
+            out.append(("view", {"k": "view", **h}))
         # crash runs: every kill point of a few histories; the first two are directed: (a) a bucket holding more events
         # than the commit threshold is deleted while writes are buffered (a commit between its two DELETEs would split it),
         # (b) a bulk insert mixing upserts and new events, and a rejected replace, are followed by more operations
